@@ -508,16 +508,6 @@ func execSim(t *testing.T, prop string, nontrivial func(*modelStats, *trace) boo
 		if tr.Deadlock != "" {
 			out.Violate("C02", "deadlock", "the bubble ended with goroutines blocked forever: %s (unfinished requests %v)", tr.Deadlock, tr.Stuck)
 		}
-		if prop == "C10" || prop == "C08" {
-			// store-centred properties own every misbehaviour observed with their store configured
-			n := len(out.Violations)
-			for i := 0; i < n; i++ {
-				v := out.Violations[i]
-				if v.Property != prop {
-					out.Violate(prop, v.Property+"/"+v.Oracle, "%s", v.Msg)
-				}
-			}
-		}
 		out.NonTrivial = nontrivial(&m.stats, tr)
 		classes(&m.stats, tr, out)
 		if tr.Skipped > 0 {
